@@ -29,7 +29,7 @@ stages:
     concurrency: 3
   - duration: 400ms
     rate: 20/10ms
-  - duration: 1500ms
+  - duration: 5s
     mode: users
     concurrency: 2
 `
